@@ -533,6 +533,10 @@ func init() {
 						out = append(out, fmt.Sprintf("state-msg:%s:%s:%s:seg=%d", dir, st, s, seg))
 					}
 				}
+				// the NOTIFICATION corebgp answers with reaches the wire in one piece also while the application writes
+				if dir == "in" && st == "established" {
+					out = append(out, "writers:in:k=3:n=300:end=fsmerr:inside=0:pause=1:adv=1:ms=120:i=0", "writers:in:k=3:n=300:end=fsmerr:inside=0:pause=1:adv=1:ms=140:i=1")
+				}
 				// a well-formed message cut in two with a real pause (> 1 s) between the parts
 				out = append(out, fmt.Sprintf("state-msg:%s:%s:%s:gap=1300", dir, st, map[string]string{"openSent": "open", "openConfirm": "ka", "established": "update"}[st]))
 			}
